@@ -305,6 +305,45 @@ def _larr(case):
     return c.out
 
 
+def gen_rarr(tier):
+    for op in ("+", "-", "/"):
+        for lk in POSES:
+            for nl in (1, 3):
+                for sh in ("conforming", "stack2", "stack1", "vector", "column", "larger", "trailing2", "short", "wide"):
+                    yield {"kind": "rarr", "op": op, "shape": sh, "L": lk, "nl": nl, "vals": DEFAULT_VALS, "R": "ndarray", "nr": 1}
+
+
+def _rarr(case):
+    """pose + / - / / NumPy array: only an array of the pose's own matrix shape conforms (+ and - give a plain array, a list
+    of arrays for several values); every other shape - stacks of matrices included - is not a documented operand"""
+    op, sh, lk, nl = case["op"], case["shape"], case["L"], case["nl"]
+    c = Checker("rarr", op=op, shape=sh, L=lk, nl=nl)
+    left, _ = build(lk, nl, case["vals"], "L")
+    n = left.A.shape[0] if nl == 1 else left.A[0].shape[0]
+    shape = {"conforming": (n, n), "stack2": (2, n, n), "stack1": (1, n, n), "vector": (n,), "column": (n, 1), "larger": (n + 1, n + 1),
+             "trailing2": (n, n, 2), "short": (n - 1,), "wide": (n - 1, 5)}[sh]
+    A = (np.arange(1.0, 1.0 + int(np.prod(shape))) * 0.25).reshape(shape)
+    before = A.copy()
+    try:
+        res = FN[op](left, A)
+        raised = False
+    except Exception:  # noqa
+        raised = True
+    site = "%s %s ndarray[%s]" % (lk, op, sh)
+    if sh == "conforming" and op in ("+", "-"):
+        if c.true(site + "/answers", not raised, "%s %s conforming array raised" % (lk, op)):
+            mats = [left.A] if nl == 1 else list(left.A)
+            want = [FN[op](np.asarray(m, dtype=float), A) for m in mats]
+            got = [res] if nl == 1 else res
+            if c.true(site + "/container", (isinstance(res, np.ndarray) if nl == 1 else isinstance(res, list) and len(res) == nl), "returned %s" % _describe(res)):
+                for g, w in zip(got, want):
+                    c.eq(site + "/value", g, w, 1e-12)
+    else:
+        c.true(site + "/must_raise", raised, "%s (%d values) %s array of shape %s returned %s instead of raising" % (lk, nl, op, shape, "?" if raised else _describe(res)))
+    c.eq("ndarray operand untouched", A, before, 0)
+    return c.out
+
+
 def gen_linebool(tier):
     for rel in ("skew", "intersecting", "parallel", "antiparallel", "same", "rescaled"):
         for op in ("^", "|", "==", "!="):
@@ -382,6 +421,8 @@ def _scalarvalue(case):
 def check_case(case):
     if case.get("kind") == "scalarvalue":
         return _scalarvalue(case)
+    if case.get("kind") == "rarr":
+        return _rarr(case)
     if case.get("kind") == "linebool":
         return _linebool(case)
     if case.get("kind") in ("hist", "aug", "variant", "own"):
@@ -580,6 +621,8 @@ def classify(case):
         return probes.classify(case)
     if case.get("kind") == "linebool":
         return {"kind:linebool": True, "op:" + case["op"]: True, "rel:" + case["rel"]: True, "nontrivial": True}
+    if case.get("kind") == "rarr":
+        return {"kind:rarr": True, "op:" + case["op"]: True, "shape:" + case["shape"]: True, "nontrivial": True}
     if case.get("kind") == "scalarvalue":
         return {"kind:scalarvalue": True, "op:" + case["op"]: True, "multi": case["n"] > 1, "nontrivial": True}
     if case.get("kind") == "larr":
@@ -604,6 +647,7 @@ def subchecks(tier):
         Sub("cells", gen=gen_cells, shards=(8, 16)),
         Sub("ndarray_left", gen=gen_larr, shards=(4, 8)),
         Sub("scalar_values", gen=gen_scalarvalue, shards=(2, 4)),
+        Sub("ndarray_right", gen=gen_rarr, shards=(1, 2)),
         Sub("line_predicates", gen=gen_linebool, shards=(1, 2)),
         Sub("values", strategy=s_cells(), n=(400, 20000), shards=(12, 16)),
         *probes.subs(PROPERTY_ID),
